@@ -43,6 +43,13 @@ def lanes(quick_scale=1.0, thorough_scale=30.0, miri=None, asan=False, memcheck=
 
 MIRI_W = [0, 1, 7, 63, 64, 65, 128, 129, 256, 521]
 
+
+def _with_extra(l, quick=(), thorough=()):
+    l = dict(l)
+    l["quick"] = list(l["quick"]) + list(quick)
+    l["thorough"] = list(l["thorough"]) + list(thorough)
+    return l
+
 PROPS = {
     "C01": dict(
         bin="c01",
@@ -126,8 +133,10 @@ PROPS = {
     ),
     "C14": dict(
         bin="c14",
-        lanes=lanes(quick_scale=12.0, thorough_scale=100.0,
-                    miri=dict(light=0.01, scale=0.0015), asan=True),
+        lanes=_with_extra(lanes(quick_scale=12.0, thorough_scale=100.0,
+                                miri=dict(light=0.01, scale=0.0015), asan=True),
+                          quick=[dict(lane="release", shards=16, scale=1.0, extra=dict(recipsweep=200000))],
+                          thorough=[dict(lane="release", shards=16, scale=1.0, extra=dict(recipsweep=4000000))]),
         primary_lane="checked",
         hooks_expected=["KNUTHN_FORCED", "KNUTHN_ADDBACK", "KNUTHN_STEP", "KNUTH_FORCED", "KNUTH_QZERO",
                         "KNUTH_ADDBACK_NOSHIFT", "KNUTH_ADDBACK_SHIFT", "KNUTH_QHIGH_NONZERO", "NX1_NORMALIZED", "NX1_SHIFT",
@@ -137,7 +146,9 @@ PROPS = {
         rule="Cases at slice level: algorithms::div for every (numerator length, divisor length) in 1..=12 x 1..=12 with zero "
              "padding, div_nxm, div_nxm_normalized (numerator's top limbs below the divisor, incl. equal lengths), div_nx1/nx2 "
              "and their normalized forms, div_2x1 / div_3x2 (mg10 and ref twin of 2x1), reciprocal / reciprocal_2 (mg10, ref) "
-             "for all 256 table rows; each strictly inside its documented + debug-asserted preconditions. div_3x2_ref is "
+             "for all 256 table rows, plus a bulk sweep of reciprocal / reciprocal_2 (200 000 resp. 4 000 000 samples per "
+             "table row and shard: low-discrepancy, end-weighted, random) that routes only mismatches through the "
+             "monitored path; each strictly inside its documented + debug-asserted preconditions. div_3x2_ref is "
              "documented in its source as off by one and is only counted. Non-trivial: divisor or numerator >= 2 limbs "
              "(always true for the word-level kernels).",
         assumptions=COMMON_ASSUME + ["kernel preconditions are those documented in the source plus the kernel's own debug_assert!s; div_nxm_normalized additionally needs the numerator's top divisor.len() limbs below the divisor (otherwise the quotient has no representation)"],
@@ -368,7 +379,9 @@ PROPS["C04"] = dict(
          "conversions); after every 8 steps sampled pairs (equal, random, one-bit neighbours) are compared: == != hash cmp "
          "partial_cmp < <= > >= min max vs BigUint order. (b) rejecting constructors on out-of-range limbs. (c) compile probes: "
          "for 9 ill-formed (BITS, LIMBS) pairs one generated program per constant / constructor; outcome must be a compile "
-         "error, a panic, or None/Err - printing a value is a violation. Non-trivial: every walk step and every probe program "
+         "error, a panic, or None/Err - printing a value is a violation; the same probe asserts that no width with padding bits in "
+         "its top limb implements bytemuck::Pod (a safe cast would otherwise yield a non-canonical value); every probe has a "
+         "well-formed control that must compile. Non-trivial: every walk step and every probe program "
          "(distinct by operation, width and operands / by program).",
     assumptions=COMMON_ASSUME + ["values produced through unsafe API (as_limbs_mut, as_le_slice_mut) are outside the property",
                                  "the ill-formed grid is the finite list of 9 (BITS, LIMBS) pairs x the listed constructors"],
